@@ -8,6 +8,8 @@ CONSTANTS
   MaxSteps = 8
   MaxClears = 1
   MaxGCs = 2
+  FillFirst = 0
+  RemovableTo = 0
   ExportHist = FALSE
 INVARIANT Refines
 PROPERTIES Reclaimed NoNeedlessGrowth CapNeverShrinks
